@@ -472,7 +472,7 @@ func runDet(t *testing.T) {
 	})
 }
 
-var subs = map[string]vdrv.ReplayFunc{"det": replayDet}
+var subs = map[string]vdrv.ReplayFunc{"det": replayDet, "localcss": replayLocalCSS}
 
 func TestCheck(t *testing.T) {
 	H = vdrv.New("C08")
@@ -480,6 +480,7 @@ func TestCheck(t *testing.T) {
 	defer func() { H.Finish(complete) }()
 	H.RunReplays(t, subs)
 	H.Sub(t, "det", runDet)
+	H.Sub(t, "localcss", runLocalCSS)
 	if len(harnessPanics) > 0 {
 		t.Fatalf("INFRA: the harness panicked %d time(s); first: %s", len(harnessPanics), harnessPanics[0])
 	}
